@@ -203,7 +203,9 @@ def _sec(c):
 
 
 def pre_doc(d):
-    nodes = ["{| wn_id := %s; wn_px := %s; wn_py := %s; wn_cons := %s; wn_dofs := %s |}" % tuple(_leaf(c, k) for k in ("GetID", "Position.X", "Position.Y", "ExternalConstraint", "DegreesOfFreedomNum"))
+    nodes = ["{| wn_id := %s; wn_px := %s; wn_py := %s; wn_cons := %s; wn_dofs := %s |}" % (
+        tuple(_leaf(c, k) for k in ("GetID", "Position.X", "Position.Y", "ExternalConstraint")) +
+        (("(Some %s)" % _leaf(c, "DegreesOfFreedomNum")) if (c.get("Bools") or {}).get("HasDegreesOfFreedomNum", "DegreesOfFreedomNum" in (c.get("Leaves") or {})) else "None",))
              for c in _items(d, "GetAllNodes")]
     bars = ["{| wb_id := %s; wb_n1 := %s; wb_l1 := %s; wb_n2 := %s; wb_l2 := %s; wb_mat := %s; wb_sec := %s; wb_count := %s; wb_nodes := %s |}" % (
         tuple(_leaf(c, k) for k in ("GetID", "StartNodeID", "StartLink", "EndNodeID", "EndLink", "Material.Name", "Section.Name", "NodesCount")) + (_strlist(c, "Nodes"),))
